@@ -44,7 +44,7 @@ class Symbol(DimensionSymbol, SymSymbol):  # type: ignore[misc]  # pylint: disab
 
     def __new__(cls,
         display_symbol: Optional[str] = None,
-        _dimension: Dimension = Dimension(S.One),
+        dimension: Dimension = Dimension(S.One),  # pylint: disable=unused-argument
         *,
         display_latex: Optional[str] = None,
         **assumptions: Any) -> Symbol:
@@ -76,7 +76,7 @@ class IndexedSymbol(DimensionSymbol, IndexedBase):  # type: ignore[misc]  # pyli
     def __new__(cls,
         name_or_symbol: Optional[str | SymSymbol] = None,
         index: Optional[Idx] = None,
-        _dimension: Dimension = Dimension(S.One),
+        dimension: Dimension = Dimension(S.One),  # pylint: disable=unused-argument
         *,
         display_latex: Optional[str] = None,
         **assumptions: Any) -> IndexedSymbol:
